@@ -10,19 +10,11 @@ PROPS = [json.loads(l)['id'] for l in (V / 'properties.jsonl').read_text().split
 BASELINE = ('cd /repo && /venv/bin/python -m pytest -ra -q -p no:cacheprovider '
             '--timeout=900 --continue-on-collection-errors')
 
-# property -> (technique, level text, level note, design ref)
-CLAIMED = {
-    'C20': (
-        'Lean 4 theorems about a hand-written executable model of graph.py/permutation.py '
-        '+ exhaustive model/implementation correspondence',
-        'Kernel-checked theorems (Props/C20.lean) about the transcribed algorithms; the model is tied to '
-        '/repo by running every request on all labelled graphs with <= 5 (quick) / <= 6 (thorough) vertices '
-        'and seeded larger graphs through both the real code and the compiled Lean model, plus independent '
-        'textbook oracles that decide whether a disagreement violates the property.',
-        'Trusted: Lean kernel + standard axioms, lake, compiled bqdriver, the Python harness. Natural-number '
-        'weights only in the model (float weights validated). Set iteration order abstracted (sorted comparison).',
-        'DESIGN.md section 4, C20'),
-}
+# one JSON snippet per claimed property: manifest.d/Cxx.json with keys technique, text, note, design_ref
+CLAIMED = {}
+for f in sorted((V / 'manifest.d').glob('C*.json')):
+    d = json.loads(f.read_text())
+    CLAIMED[f.stem] = (d['technique'], d['text'], d['note'], d['design_ref'])
 
 NOT_YET = 'check not built yet in this round (design in DESIGN.md section 4); not claimed until its model, theorems and tie exist'
 
